@@ -82,12 +82,16 @@ def _mutation_blocks(body, local):
 
 def _between(cfg, edges, site_bb):
     """blocks on some path from the targets of `edges` to site_bb (inclusive of both ends)"""
-    fwd = cfg.reach([e[1] for e in edges], stop_at=[site_bb])
+    # only the stretch after the *last* crossing of the guarding edges matters (they dominate the site)
+    es = set(edges)
+    fwd = cfg.reach([e[1] for e in edges], stop_at=[site_bb], avoid_edges=es)
     back = {site_bb}
     st = [site_bb]
     while st:
         x = st.pop()
         for p in cfg.preds(x):
+            if (p, x) in es:
+                continue
             if p in fwd and p not in back:
                 back.add(p)
                 st.append(p)
